@@ -1,6 +1,7 @@
 """C16 - metadata constructors emit only well-formed, faithful metadata."""
 import copy
 import datetime
+import time
 import random
 import re
 
@@ -31,7 +32,12 @@ def plan(tier, seed):
         for _ in range(2 if q else 5):
             specs.append({"kind": "tuples", "count": 600 if q else 8000, "env": {"TZ": tz}, "tz": tz})
     specs.append({"kind": "corrupt", "env": {"TZ": "UTC"}, "tz": "UTC"})
+    for j, tz in enumerate(["UTC", "Asia/Tokyo"] if q else ["UTC", "Asia/Tokyo", "America/Los_Angeles", "Pacific/Kiritimati"]):
+        specs.append({"kind": "history", "env": {"TZ": tz}, "tz": tz, "rounds": 2 if q else 12})
     return specs
+
+
+TOL = 2
 
 
 def parse(ts):
@@ -90,9 +96,10 @@ def check_result(kind, args_case, kwargs_case, out, rec, lib, tz, t_before, t_af
             rec.violation("builder/%s/default-timestamp-malformed" % kind, "default timestamp %r" % (ts,), case)
         else:
             dt = parse(ts)
-            if not (t_before - datetime.timedelta(seconds=120) <= dt <= t_after + datetime.timedelta(seconds=120)):
+            # the library reads the same system clock between t_before (floored to the second) and t_after; 2 s of slack
+            if not (t_before - datetime.timedelta(seconds=TOL) <= dt <= t_after + datetime.timedelta(seconds=TOL)):
                 rec.violation("builder/%s/default-timestamp-not-utc-now/tz=%s" % (kind, "UTC" if tz == "UTC" else "nonUTC"),
-                              "default timestamp %s is not within 120 s of UTC now %s (TZ=%s)" % (ts, t_before.isoformat(), tz), case)
+                              "default timestamp %s is not within %d s of UTC now %s (TZ=%s)" % (ts, TOL, t_before.isoformat(), tz), case)
     if want_exp is None:
         rec.count("default_expiration_checks")
         if not (isinstance(exp, str) and DATE_RX.match(exp)):
@@ -109,7 +116,7 @@ def check_result(kind, args_case, kwargs_case, out, rec, lib, tz, t_before, t_af
             else:
                 # explicit timestamp, default expiration: about one year from now
                 delta = (parse(exp) - t_before).total_seconds()
-                if not (365 * 86400 - 125 <= delta <= 365 * 86400 + 125):
+                if not (365 * 86400 - TOL - 3 <= delta <= 365 * 86400 + TOL + 3 + (t_after - t_before).total_seconds()):
                     rec.violation("builder/%s/default-expiry-not-one-year" % kind,
                                   "default expiration is %.1f days from now" % (delta / 86400), case)
     # checker + schema on the wrapped result
@@ -132,9 +139,14 @@ def call_builder(kind, kwargs_case, rec, lib, tz, label):
     fn = M.build_delegating_metadata if kind == "delegating" else M.build_root_metadata
     kw = caselang.dec(kwargs_case, lib)
     before_fp = boundary.fingerprint(kw)
-    t_before = datetime.datetime.now(datetime.timezone.utc).replace(microsecond=0)
+    m0 = time.monotonic()
+    w0 = datetime.datetime.now(datetime.timezone.utc)
+    t_before = w0.replace(microsecond=0)
     out = boundary.call(lib, fn, **kw)
     t_after = datetime.datetime.now(datetime.timezone.utc)
+    if abs((t_after - w0).total_seconds() - (time.monotonic() - m0)) > 0.5:
+        rec.count("wall_clock_stepped_during_call")  # the system clock was set during the call: times not judged
+        return out
     rec.case("%s|%s|%s" % (kind, label, boundary.fingerprint(kw)))
     rec.hist("builder_outcome", "%s:%s" % (kind, "return" if out.accepted else out.family))
     case = {"kind": "build", "builder": kind, "kwargs": kwargs_case, "tz": tz}
@@ -255,8 +267,38 @@ def run_corrupt(spec, rec, lib):
     rec.sample({"corrupt": "each argument replaced by each of %d palette values" % len(palette.ALL)})
 
 
+def run_history(spec, rec, lib):
+    """default times are read from the clock at EVERY call: a mixture of rejected and successful calls of both builders
+    (explicit and default times), then real time passes, then default-time calls are judged against the clock again"""
+    rng = random.Random(spec["seed"])
+    tz = spec["tz"]
+    M = lib.metadata_construction
+    bad_root = [dict(root_version=0), dict(root_threshold=0), dict(root_pubkeys=["zz"]), dict(key_mgr_threshold="1"), dict(root_timestamp="yesterday"),
+                dict(root_expiration=5), dict(key_mgr_pubkeys=None), dict(root_version="1")]
+    bad_del = [dict(metadata_type=5), dict(delegations={"x": 1}), dict(timestamp="now"), dict(expiration="never"), dict(version=0)]
+    rounds = spec.get("rounds", 2)
+    for rnd in range(rounds):
+        order = [("root", b) for b in bad_root] + [("delegating", b) for b in bad_del] + [("root", {}), ("delegating", {})] * 2
+        rng.shuffle(order)
+        for kind, over in order[: rng.randint(3, len(order))]:
+            kw = valid_kwargs(kind, rng)
+            if rng.random() < 0.5:
+                for k in ("timestamp", "expiration", "root_timestamp", "root_expiration"):
+                    kw.pop(k, None)
+            kw.update(over)
+            call_builder(kind, kw, rec, lib, tz, "history:phase1")
+        rec.count("history_rounds")
+        time.sleep(TOL + 1.2)
+        for kind in ("root", "delegating", "root", "delegating"):
+            kw = valid_kwargs(kind, rng)
+            for k in ("timestamp", "expiration", "root_timestamp", "root_expiration"):
+                kw.pop(k, None)
+            call_builder(kind, kw, rec, lib, tz, "history:after-%.1fs" % (TOL + 1.2))
+            rec.count("default_time_calls_after_earlier_calls_and_a_pause")
+
+
 def run_shard(spec, rec, lib):
-    {"tuples": run_tuples, "corrupt": run_corrupt}[spec["kind"]](spec, rec, lib)
+    {"tuples": run_tuples, "corrupt": run_corrupt, "history": run_history}[spec["kind"]](spec, rec, lib)
 
 
 def finish(merged, tier, seed):
